@@ -34,6 +34,8 @@ EQ_FIELDS = {
 }
 
 
+CONFIG_SENSITIVE = True      # thorough tier: analysed under all four build configurations
+
 def run(chk):
     chk.rule("R19.1", "public methods of value classes have no write effects beyond the value-preserving writers")
     chk.rule("R19.2", "shape of the value-preserving writers")
